@@ -9,7 +9,7 @@
    the log-parameters held by the Go objects (only + and >), and the returned
    path is compared with the enumerated optimum in exact arithmetic. *)
 From Coq Require Import List Arith Bool ZArith QArith Qcanon Qabs Floats.
-From ADV Require Import Base.Corr C15.Model C15.ModelBuf.
+From ADV Require Import Base.Corr C15.Model C15.ModelBuf C15.ModelCls.
 Import ListNotations.
 Open Scope nat_scope.
 
@@ -39,6 +39,17 @@ Definition qcl (l : list Q) : list Qc := map Q2Qc l.
 Definition vecf {X} (d : X) (l : list X) : nat -> X := fun i => nth i l d.
 Definition matf {X} (d : X) (l : list (list X)) : nat -> nat -> X := fun i j => nth j (nth i l []) d.
 
+(* round 6: the classifier front-ends of statistics/vectorClassifier on one sequence.  Outcome kind
+   0 = nil error, 1 = error returned, 2 = panic; the values of HmmPosterior.Eval are probabilities
+   (Eval exponentiates), printed as the exact rational of the float64; those of HmmClassifier.Eval
+   are the float64 values written to r, printed as integers (the harness refuses non-integral ones) *)
+Record clsobs := mkCls {
+  kStates : list Z; kRdim : nat;
+  kPost : nat * list gres;
+  kPostClone : option (nat * list gres);      (* the same through CloneVectorClassifier() *)
+  kVit : nat * list Z
+}.
+
 (* one observation sequence run through one model *)
 Record hseq := mkSeq {
   sN : nat;
@@ -50,7 +61,8 @@ Record hseq := mkSeq {
   bitsGen : list Z; bitsOpt : list Z;  (* raw float64 bits of alpha ++ beta of both *)
   gMarg : option (list (list gres));   (* PosteriorMarginals [k][i]; None = error *)
   gPost : list (list (list nat) * gres);   (* Posterior(states) *)
-  gVit : list nat
+  gVit : list nat;
+  gCls : list clsobs
 }.
 
 Record hcase := mkH {
@@ -70,6 +82,33 @@ Definition qmax (l : list Qc) : Qc :=
   fold_left (fun a b => match (a ?= b)%Qc with Lt => b | _ => a end) l 0%Qc.
 Definition nodup_sets (sts : list (list nat)) : bool :=
   forallb (fun s => Nat.eqb (length (nodup Nat.eq_dec s)) (length s)) sts.
+
+Definition cres_rel {X Y} (r : X -> Y -> bool) (v : cres (list X)) (g : nat * list Y) : bool :=
+  match v, g with
+  | CErr, (1, _) => true
+  | CPanic, (2, _) => true
+  | COk l, (0, o) => list_rel r l o
+  | _, _ => false
+  end.
+Definition z_nodup_valid (m : nat) (l : list Z) : bool :=
+  cls_states_ok m l && Nat.eqb (length (nodup Z.eq_dec l)) (length l).
+(* HmmPosterior.Eval against the model and, for a duplicate-free valid list, independently of the
+   recursions against the enumeration; HmmClassifier.Eval bit-exactly on the float tables *)
+Definition chk_cls_one (m : nat) (Pi : nat -> Qc) (Tr Tf : nat -> nat -> Qc) (sm : nat -> nat) (e : nat -> nat -> Qc)
+           (fPi' : nat -> float) (fTr' fTf' : nat -> nat -> float) (fe : nat -> nat -> float) (n : nat) (k : clsobs) : bool :=
+  let r := cls_posterior OpsQc m Pi Tr Tf sm e (kRdim k) n (kStates k) in
+  let elik := enum_likelihood OpsQc m Pi Tr Tf sm e n in
+  cres_rel approx r (kPost k) &&
+  match kPostClone k with None => true | Some g => cres_rel approx r g end &&
+  match r with
+  | COk l => if z_nodup_valid m (kStates k)
+             then forallb (fun kv => Qc_eqb (snd kv * elik)%Qc
+                                            (enum_in_set OpsQc m Pi Tr Tf sm e n (fst kv) (map Z.to_nat (kStates k))))
+                          (combine (seq 0 n) l)
+             else true
+  | _ => true
+  end &&
+  cres_rel (fun a b => Z.eqb (Z.of_nat a) b) (cls_viterbi VOpsF m fPi' fTr' fTf' sm fe (kRdim k) n) (kVit k).
 
 Section SEQ.
   Variable c : hcase.
@@ -124,10 +163,14 @@ Section SEQ.
     Nat.eqb (length (gVit s)) n && forallb (fun x => x <? m) (gVit s) &&
     Qc_eqb (wt (gVit s)) best && Qc_eqb (wt vq) best.
 
+  Definition chk_cls : bool :=
+    forallb (chk_cls_one m Pi Tr Tf sm e (vecf neg_infinity (fPi c)) (matf neg_infinity (fTr c)) (matf neg_infinity (fTf c))
+                         (matf neg_infinity (sEmF s)) n) (gCls s).
+
   Definition seq_fails : list nat :=
     (if chk_logpdf then [] else [1]) ++ (if chk_alpha then [] else [2]) ++ (if chk_beta then [] else [3]) ++
     (if chk_bits then [] else [4]) ++ (if chk_marg then [] else [5]) ++ (if chk_post then [] else [6]) ++
-    (if chk_vit then [] else [7]).
+    (if chk_vit then [] else [7]) ++ (if chk_cls then [] else [9]).
 End SEQ.
 
 Definition chk_params (c : hcase) : bool :=
